@@ -14,10 +14,10 @@ throughout, and their `swap(source); swap(key)` is a swap of the whole entry).
 Every member function is transliterated: the constructor's padding loop,
 `insert_start`, the recursive `init_winner` (fuel = height, structural),
 `init`, the leaf-to-root loop of `delete_min_insert` (the four variants of
-its body are `step`), `min_source`.  Representation details that are *not*
-modelled: `first_insert_` (it only gives the not-yet-used `key` members a
-value) and the uninitialised state of inner nodes before `init` (modelled by
-a placeholder entry that no theorem relies on).
+its body are `step`), `min_source`, and `first_insert_` of `LoserTreeCopyBase` (the first
+`insert_start` call copies its key into the `key` member of all `2*k_` nodes).  Not
+modelled: the uninitialised state of nodes before they are written (a placeholder entry
+that no theorem relies on).
 -/
 namespace TlxVerif.C09
 
@@ -53,6 +53,7 @@ structure Tree (α : Type) where
   ik : Nat                       -- ik_
   k : Nat                        -- k_
   losers : Array (Entry α)       -- losers_ (size 2*k_)
+  firstInsert : Bool := true     -- first_insert_ (LoserTreeCopyBase only)
   deriving Repr
 
 variable {α : Type}
@@ -90,10 +91,31 @@ def mkEntry (dflt : α) (key : Option α) (source : Nat) : Entry α :=
   | some x => { sup := false, source := source, key := x }
   | none => { sup := true, source := source, key := dflt }
 
-/-- `insert_start(keyp, source, sup)` -/
+/-- `insert_start(keyp, source, sup)`.
+`LoserTreeCopyBase` (copy, guarded): `sup` and `source` of the leaf are set; on the first call
+(`first_insert_`) the `key` member of **every** node becomes the inserted key (or `ValueType()`),
+on later calls only the leaf's.  The other classes write the leaf only. -/
 def Tree.insertStart (t : Tree α) (dflt : α) (key : Option α) (source : Nat) : Option (Tree α) := do
-  let a ← wr t.losers (t.k + source) (mkEntry dflt key source)
-  pure { t with losers := a }
+  let pos := t.k + source
+  if t.v.copy && t.v.guarded then
+    let old ← rd t.losers pos
+    let kv := key.getD dflt
+    let a ← wr t.losers pos { sup := key.isNone, source := source, key := old.key }
+    if t.firstInsert then
+      pure { t with losers := a.map (fun e => { e with key := kv }), firstInsert := false }
+    else do
+      let a' ← wr a pos { sup := key.isNone, source := source, key := kv }
+      pure { t with losers := a' }
+  else do
+    let a ← wr t.losers pos (mkEntry dflt key source)
+    pure { t with losers := a }
+
+/-- a sequence of `insert_start(key, source, …)` calls in the given order -/
+def insertList (dflt : α) : List (Nat × Option α) → Tree α → Option (Tree α)
+  | [], t => some t
+  | (source, key) :: rest, t => do
+    let t' ← t.insertStart dflt key source
+    insertList dflt rest t'
 
 /-- `for (t = i; t < k; ++t) insert_start(key of player t, t, …)` as every user does -/
 def insertFrom (dflt : α) : List (Option α) → Nat → Tree α → Option (Tree α)
@@ -182,6 +204,13 @@ def Tree.start (v : Variant) (lt : α → α → Bool) (sentinel dflt : α) (key
     Option (Tree α) := do
   let t ← construct v keys.length sentinel dflt
   let t ← insertFrom dflt keys 0 t
+  t.init lt
+
+/-- like `Tree.start`, with the players registered in the order of `regs` (source, first key) -/
+def Tree.startPerm (v : Variant) (lt : α → α → Bool) (sentinel dflt : α) (ik : Nat)
+    (regs : List (Nat × Option α)) : Option (Tree α) := do
+  let t ← construct v ik sentinel dflt
+  let t ← insertList dflt regs t
   t.init lt
 
 /-- `min_source()` -/
